@@ -300,7 +300,16 @@ def rule_r4(ctx):
         else:
             ctx.r.violation(rid, key_of(f, None, "header-dropped"), "an application header is dropped under %s" % [(norm(t), pol) for (t, pol) in gs], f.loc(cn.ast))
     apps = [c for c in ast.walk(lp) if isinstance(c, ast.Call) and isinstance(c.func, ast.Attribute) and c.func.attr == "append" and c.args and isinstance(c.args[0], ast.Tuple)]
-    if apps and all(len(c.args[0].elts) == 2 and dotted(c.args[0].elts[0]) == hn and dotted(c.args[0].elts[1]) == hv for c in apps):
+    # the name of the pair: the loop variable, or a local of the loop that holds nothing but its case-normalised form
+    name_ok = {hn}
+    for st in ast.walk(lp):
+        if isinstance(st, ast.Assign) and len(st.targets) == 1 and isinstance(st.targets[0], ast.Name) and st.targets[0].id not in (hn, hv):
+            meths = {c.func.attr for c in ast.walk(st.value) if isinstance(c, ast.Call) and isinstance(c.func, ast.Attribute)}
+            srcs = {x.id for x in ast.walk(st.value) if isinstance(x, ast.Name) and isinstance(x.ctx, ast.Load)} - {y.id for g2 in ast.walk(st.value) if isinstance(g2, ast.comprehension) for y in ast.walk(g2.target) if isinstance(y, ast.Name)}
+            others = [o for o in ast.walk(lp) if o is not st and isinstance(o, (ast.Assign, ast.AugAssign)) and any(isinstance(t, ast.Name) and t.id == st.targets[0].id for t in ast.walk(o))  and any(isinstance(t, ast.Name) and isinstance(t.ctx, ast.Store) and t.id == st.targets[0].id for t in ast.walk(o))]
+            if meths and meths <= {"join", "capitalize", "split", "title"} and srcs == {hn} and not others:
+                name_ok.add(st.targets[0].id)
+    if apps and all(len(c.args[0].elts) == 2 and dotted(c.args[0].elts[0]) in name_ok and dotted(c.args[0].elts[1]) == hv for c in apps):
         ctx.r.ok(rid, "normalised (name, value) pairs keep the value untouched", f.loc(apps[0]))
     else:
         ctx.r.violation(rid, key_of(f, None, "pair-rewritten"), "the serialiser re-appends something else than (name, value)", f.loc(lp))
